@@ -5,6 +5,7 @@ f4_0:
   ret
   call f0_0
   lea d_f4_0(%rip),%rax
+  mov wvsv1(%rip),%rax
   ret
 .section .data.d_f4_0,"aw",@progbits
 .globl d_f4_0
@@ -20,4 +21,5 @@ f4_1:
   call f26_0
   call f5_1
   call f1_0
+  mov wvsv1(%rip),%rax
   ret
